@@ -29,6 +29,8 @@ impl Report {
         }
     }
 }
+/// true when the check runs in the thorough tier (`./check CNN thorough`): modules may enlarge their input space
+pub fn thorough() -> bool { std::env::var("VERIF_TIER").map(|v| v == "thorough").unwrap_or(false) }
 pub fn close(a: f64, b: f64) -> bool { (a - b).abs() <= TOL * (1.0 + a.abs().max(b.abs())) }
 
 pub mod c01;
